@@ -176,10 +176,10 @@ Lemma cdc_herm (c : cmat) l j : cadj (mmul d (cadj c) c) l j = mmul d (cadj c) c
 Proof. rewrite cadj_mmul. unfold mmul. apply (@sumn_ext Cx); intros q _. now rewrite cadj_cadj. Qed.
 
 Theorem apply_jump_gksl (cs : list cmat) (rho : cmat) i j : (i < d)%nat -> (j < d)%nat ->
-  apply_cb d (jump_d_gksl d cs) rho i j = gksl_jump d cs rho i j.
+  apply_cb d (jump_d d cs) rho i j = gksl_jump d cs rho i j.
 Proof. intros Hi Hj. rewrite apply_cb_entry by exact Hj. rewrite gksl_jump_fold.
   assert (Ht : (i * d + j < d * d)%nat) by now apply flat_lt.
-  unfold jump_d_gksl, jump_j_gksl, jump_k. rewrite mv_madd_m, mv_mscale_m, !mv_msum.
+  unfold jump_d, jump_j, jump_k. rewrite mv_madd_m, mv_mscale_m, !mv_msum.
   induction cs as [|c cs IH]; cbn [map fold_right]. { ring. }
   rewrite j_part_act by exact Ht. rewrite vec_AXBd by exact Hd. rewrite !vecr_entry by exact Hj.
   assert (E : mmul d rho (cadj (mmul d (cadj c) c)) i j = mmul d rho (mmul d (cadj c) c) i j).
